@@ -213,7 +213,8 @@ type TickerPlan struct {
 }
 
 func genDJ(t *rapid.T, label string) (int64, int64) {
-	d := rapid.SampledFrom([]int64{1, 2, 1000, int64(time.Millisecond), int64(time.Second), int64(time.Hour), 1 << 60}).Draw(t, label+"d")
+	// (1<<62 + 5: with jitter d-1 twice the jitter no longer fits a Duration; the fake clock can still carry one such period)
+	d := rapid.SampledFrom([]int64{1, 2, 1000, int64(time.Millisecond), int64(time.Second), int64(time.Hour), 1 << 60, 1<<62 + 5}).Draw(t, label+"d")
 	var j int64
 	switch rapid.IntRange(0, 4).Draw(t, label+"jclass") {
 	case 0:
